@@ -1,3 +1,6 @@
+mod c40;
+mod util;
+
 fn main() {
-    vmon::run_main(&[]);
+    vmon::run_main(&[("C40", c40::run)]);
 }
